@@ -3,9 +3,9 @@ from vdriver import Job, REPO
 
 LEVEL = "other"
 TECHNIQUE = "CBMC harness proofs of the real Type.c lookup functions against an independent ghost scan, for every (static type, class) pair; concretely bounded loops with unwinding assertions"
-LEVEL_TEXT = "placeholder"
-NOTE = "placeholder"
-EXPLANATION = "all (type, class) pairs of the real static objects"
+LEVEL_TEXT = 'Complete harness proofs for every (static type, class) pair of the real library objects against an independent ghost scan (cold, warm, reverse order, cache-slot invariant), ClassError on missing classes/members; run-time types built by the real Type_New are checked for instance lists of up to 2 entries over class names that are prefixes of each other (bounded part).'
+NOTE = 'CBMC 6.11; concurrent first lookups not decided; run-time types beyond 2 instances not explored; 256-instance limit not exercised'
+EXPLANATION = LEVEL_TEXT
 TRUSTED = ["concurrent first lookups are not decided (schedules)"]
 
 FUNCS = ["Type_Scan", "Type_Instance", "Type_Implements", "Type_Method_At_Offset", "Type_Implements_Method_At_Offset", "Type_Of",
